@@ -104,9 +104,12 @@ struct TxSess { int st = 0;   // 0 none (free), 1 alive, 2 maybe (deadline hit e
 struct RxSess { bool rts, ours; int dev; unsigned src, dst; unsigned long pgn; unsigned size; int npk; int got; int winEnd; std::vector<unsigned char> data;
   int admitted;   // 1 yes, 2 unknown
   uint64_t lastAct; };
+// a receive slot that may be occupied: every unfinished message the node was handed (superset of the real slots), with the time the
+// library stamps it with (first frame of a fast packet; announce / last in-sequence data packet of a transport session)
+struct BusySlot { bool tp; unsigned src, dst; unsigned long pgn; uint64_t t; };
 struct Mon {
   Node *N = nullptr; int nDev = 0, mode = 1, nslots = 5; unsigned addr[16]; uint64_t claimUntil[16]; TxSess tx[16];
-  std::vector<RxSess> rxs; std::deque<Frame> q; long busy = 0; bool lenient = false;
+  std::vector<RxSess> rxs; std::deque<Frame> q; std::vector<struct BusySlot> busy; bool pressureSeen = false; bool lenient = false;
   std::vector<Frame> P; size_t pi = 0; std::vector<Deliv> D; size_t di = 0; bool refused = false;
 };
 static Mon M[2];
@@ -256,6 +259,21 @@ static void txControl(Mon &m, int dev, const Frame &f, const Dec &d) {
 }
 
 // ---- library as responder / listener ------------------------------------------------------------------------------
+static void busyAdd(Mon &m, bool tp, unsigned src, unsigned dst, unsigned long pgn) { m.busy.push_back({tp, src, dst, pgn, g_now}); }
+static void busyDropTp(Mon &m, unsigned src, unsigned dst) { for (size_t i = 0; i < m.busy.size();) if (m.busy[i].tp && m.busy[i].src == src && m.busy[i].dst == dst) m.busy.erase(m.busy.begin() + i); else i++; }
+static void busyTouchTp(Mon &m, unsigned src, unsigned dst) { for (auto &b : m.busy) if (b.tp && b.src == src && b.dst == dst) b.t = g_now; }
+static void busyDropFp(Mon &m, unsigned long pgn, unsigned src) { for (size_t i = 0; i < m.busy.size(); i++) if (!m.busy[i].tp && m.busy[i].pgn == pgn && m.busy[i].src == src) { m.busy.erase(m.busy.begin() + i); return; } }
+// a slot is certainly available for a new message: fewer candidates than slots, or (as long as the library has not had to recycle
+// anything yet in this case) every candidate is more than 100 ms old - Max_N2kMsgBuf_Time - with 1 ms margin and far from the 2^31 horizon
+static bool slotAvailable(Mon &m) {
+  if (m.N->onlyKnown || m.nslots <= 0) return false;
+  if ((long)m.busy.size() < m.nslots) return true;
+  if (m.pressureSeen) return false;
+  for (auto &b : m.busy) { uint64_t age = g_now - b.t; if (age < 102 || age > 0x7fffffffULL - 1000) return false; }
+  C.count("rx_slot_must_be_recycled");
+  return true;
+}
+static void slotRequested(Mon &m) { if ((long)m.busy.size() >= m.nslots) m.pressureSeen = true; }
 static RxSess *findRx(Mon &m, unsigned src, unsigned dst) { for (auto &r : m.rxs) if (r.src == src && r.dst == dst) return &r; return nullptr; }
 static void dropRx(Mon &m, unsigned src, unsigned dst) { for (size_t i = 0; i < m.rxs.size(); i++) if (m.rxs[i].src == src && m.rxs[i].dst == dst) { m.rxs.erase(m.rxs.begin() + i); return; } }
 
@@ -266,9 +284,10 @@ static void rxStart(Mon &m, const Frame &f, const Dec &d) {
   bool stale = old && old->pgn != pgn;        // an unfinished session of the same pair for another PGN
   uint64_t staleAge = old ? g_now - old->lastAct : 0;
   if (old) dropRx(m, d.src, d.dst);           // J1939-21: one session per source/destination pair; a new announce replaces it
+  busyDropTp(m, d.src, d.dst);
   bool wellFormed = size >= 9 && npk == (int)((size + 6) / 7) && (rts ? d.dst != 255 : d.dst == 255);
-  bool room = m.busy < m.nslots && !m.N->onlyKnown;   // with the known-message filter on, an unlisted PGN is something the node "cannot hold"
-  m.busy++;
+  bool room = slotAvailable(m);               // with the known-message filter on, an unlisted PGN is something the node "cannot hold"
+  slotRequested(m); busyAdd(m, true, d.src, d.dst, pgn);
   caseInteresting = true; C.count(rts ? (ours ? "rx_rts_ours" : "rx_rts_foreign") : "rx_bam");
   RxSess r; r.rts = rts; r.ours = ours; r.dev = dev; r.src = d.src; r.dst = d.dst; r.pgn = pgn; r.size = size; r.npk = npk; r.got = 0; r.winEnd = 0; r.admitted = 2; r.lastAct = g_now;
   if (!wellFormed) { m.lenient = true; C.count("rx_malformed_announce"); }
@@ -282,7 +301,7 @@ static void rxStart(Mon &m, const Frame &f, const Dec &d) {
       r.admitted = 1; r.winEnd = c->buf[1]; if (r.winEnd > npk) r.winEnd = npk;
       m.rxs.push_back(r); C.count("rx_cts_first");
     } else if (a) {
-      m.pi++; m.busy--; C.count("rx_abort_on_rts");
+      m.pi++; busyDropTp(m, d.src, d.dst); C.count("rx_abort_on_rts");
       if (size <= 223 && wellFormed && room && !m.lenient)
         C.fail(size == 223 ? "C10:rx-223" : "C10:rts-refused", "RTS for %u bytes (PGN %lu) aborted (reason %u) although the library can hold it and a slot is free", size, pgn, a->buf[1]);
     } else {
@@ -294,7 +313,7 @@ static void rxStart(Mon &m, const Frame &f, const Dec &d) {
   }
   // BAM, or RTS between other nodes: the node only listens
   r.admitted = (size <= 223 && room && wellFormed && m.N->nslots() > 0) ? 1 : 2;
-  if (size > 223) { m.busy--; r.admitted = 0; }
+  if (size > 223) { busyDropTp(m, d.src, d.dst); r.admitted = 0; }
   m.rxs.push_back(r);
 }
 
@@ -308,10 +327,10 @@ static void rxData(Mon &m, const Frame &f, const Dec &d) {
   if ((int)seq != r->got + 1) {              // lost / duplicated / reordered packet: the session ends, nothing may be delivered
     C.count("rx_sequence_fault");
     if (respond && peekCM(m, 255, d.dst, d.src, r->pgn)) { m.pi++; C.count("rx_abort_on_fault"); }
-    m.busy--; dropRx(m, d.src, d.dst); return;
+    busyDropTp(m, d.src, d.dst); dropRx(m, d.src, d.dst); return;
   }
   for (int j = 1; j < f.len && j < 8; j++) r->data.push_back(f.buf[j]);
-  r->got++; r->lastAct = g_now;
+  r->got++; r->lastAct = g_now; busyTouchTp(m, d.src, d.dst);
   if ((unsigned)r->got * 7 >= r->size) {     // final packet
     std::vector<unsigned char> pl(r->data.begin(), r->data.begin() + (r->size < r->data.size() ? r->size : r->data.size()));
     if (respond && dev >= 0) {
@@ -325,7 +344,7 @@ static void rxData(Mon &m, const Frame &f, const Dec &d) {
       if (dl.dst != d.dst || dl.len != (int)r->size || dl.data != pl) C.fail(std::string("C10:delivery-content:") + lenKey(r->size), "delivered %s, sent %u bytes %s", delivStr(dl).c_str(), r->size, hex(pl.data(), pl.size()).c_str());
       m.di++; C.count("rx_delivered");
     } else if (r->admitted == 1 && !m.lenient) C.fail(r->size == 223 ? std::string("C10:rx-223") : std::string("C10:delivery-missing:") + (r->rts ? "rts" : "bam"), "complete %u-byte transfer of PGN %lu from %u to %u not delivered", r->size, r->pgn, d.src, d.dst);
-    m.busy--; dropRx(m, d.src, d.dst); return;
+    busyDropTp(m, d.src, d.dst); dropRx(m, d.src, d.dst); return;
   }
   if (respond && r->got == r->winEnd) {      // the granted window is used up: the responder has to grant the next one
     const Frame *c = dev >= 0 ? peekCM(m, 17, d.dst, d.src, r->pgn) : nullptr;
@@ -355,7 +374,7 @@ static void onPeerFrame(Mon &m, const Frame &f) {
   }
   if (d.pgn == 60160UL) { rxData(m, f, d); return; }
   // other traffic: may occupy a reassembly slot until it is complete
-  if (f.len >= 1 && (f.buf[0] & 0x1f) == 0) m.busy++;
+  if (f.len >= 1 && (f.buf[0] & 0x1f) == 0) { slotRequested(m); busyAdd(m, false, d.src, d.dst, d.pgn); }
   C.count("rx_other_traffic");
 }
 
@@ -368,7 +387,7 @@ static void monFinish(Mon &m, const char *what) {
   }
   for (; m.di < m.D.size(); m.di++) {
     if (m.D[m.di].tp) { if (!m.lenient) C.fail("C10:spurious-delivery", "%s", delivStr(m.D[m.di]).c_str()); }
-    else if (m.busy > 0) m.busy--;
+    else busyDropFp(m, m.D[m.di].pgn, m.D[m.di].src);
   }
 }
 
@@ -528,8 +547,9 @@ static void rxDT(const char *op, unsigned from, unsigned to, unsigned seq, const
 static std::vector<unsigned char> payload(Rng &R, int len) { std::vector<unsigned char> p(len); int k = (int)R.below(4); for (int i = 0; i < len; i++) p[i] = k == 0 ? (unsigned char)(i + 1) : (k == 1 ? 0xff : (unsigned char)R.below(256)); return p; }
 static unsigned long pickRtsPgn(Rng &R) { return RTS_PGNS[R.below(sizeof RTS_PGNS / sizeof *RTS_PGNS)]; }
 static unsigned long pickPgn(Rng &R) { return TP_PGNS[R.below(sizeof TP_PGNS / sizeof *TP_PGNS)]; }
-static void resetNode(Rng &R, const char *fl, const char *op, int devs, int nslots, int mode, unsigned qsize, bool onlyKnown = false) {
+static void resetNode(Rng &R, const char *fl, const char *op, int devs, int nslots, int mode, unsigned qsize, bool onlyKnown = false, long long fixedOrigin = -1) {
   uint64_t origin = R.chance(1, 3) ? 0xFFFFFFFFULL - R.below(1500) : (R.chance(1, 2) ? R.below(100000) : 0x7FFFFFFFULL - R.below(1500));
+  if (fixedOrigin >= 0) origin = (uint64_t)fixedOrigin;
   char b[200]; snprintf(b, sizeof b, "%s %s %u %d %d %d %llu %d", op, fl, qsize, nslots, mode, devs, (unsigned long long)(strcmp(op, "reset") ? 0 : origin), onlyKnown ? 1 : 0); X(b);
 }
 static void sendTP(int dev, unsigned long pgn, unsigned dst, const std::vector<unsigned char> &pl, int extra = 0, bool tp = true) {
@@ -759,6 +779,28 @@ static void generate(Rng &R, const char *fl) {
     X("st"); C.count("gen_slot_pressure");
   }
   C.sample("slot pressure: all slots but one hold unfinished fast packets of other sources, a BAM / RTS-CTS reception lasting > 100 ms (gaps < 100 ms) must survive further sources starting fast packets (MsgTime refresh per data packet)");
+  // (4e) slot recycling by age, directed at the clock values 0, 2^31 and 2^32: every slot is filled with an unfinished fast packet
+  //      shortly before the boundary, the transfer starts after it - more than 100 ms later it must get a recycled slot
+  //      (CTS, EndOfMsgACK, delivery); less than 100 ms later the refusal is legitimate
+  {
+    const uint64_t BOUND[] = {0ULL, 0x80000000ULL, 0x100000000ULL};
+    int reps = tierN(4, 30);
+    for (uint64_t B : BOUND) for (int rep = 0; rep < reps; rep++) for (int bam = 0; bam < 2; bam++) {
+      int nslots = (int)R.range(1, 5); uint64_t before = B == 0 ? 0 : R.range(1, 90);
+      long long origin = B == 0 ? 0 : (long long)(B - before - 700 - 2 * nslots);
+      resetNode(R, fl, "reset", 1, nslots, R.chance(1, 2) ? 1 : 2, 40, false, origin);
+      unsigned me = nodeAddr(0, 0);
+      for (int f = 0; f < nslots; f++) { unsigned char b[8] = {(unsigned char)(32 * (f % 8)), 43, 1, 2, 3, 4, 5, 6}; X(rxLine("rx", refId(6, 129029UL, 70 + f, 255), b, 8)); T(R.below(3)); }
+      bool late = rep % 4 != 3;                         // 3 of 4: clearly older than 100 ms; 1 of 4: younger
+      T(before + (late ? R.range(103, 400) : R.range(0, 5)));
+      if (R.chance(1, 3)) X("st");
+      rxTransfer(R, PEER, bam ? 255 : me, pickPgn(R), payload(R, (int)R.range(9, 60)), G_NONE);
+      T(R.range(110, 300));
+      rxTransfer(R, PEER + 1, bam ? 255 : me, pickPgn(R), payload(R, (int)R.range(9, 60)), G_NONE);   // a second recycling (bookkeeping no longer exact: count only)
+      X("st"); C.count("gen_recycle_at_boundary");
+    }
+    C.sample("slot recycling by age at clock values 0, 2^31, 2^32: all slots hold unfinished fast packets stamped before the boundary, an RTS / BAM more than 100 ms later must be admitted and complete");
+  }
   // (4d) other pending information of the sending device while a transfer is open: an ISO request for product / configuration
   //      information (or the address claim) addressed to the sending device is answered at once, or its answer is refused by
   //      the driver and retried 187+ ms later; the transfer must go on being polled (pacing, timeout, later transfers)
